@@ -354,7 +354,7 @@ SUBS = [
         "random_unlimited",
         body_random,
         strategy=strat_unlimited,
-        examples={"quick": 6000, "thorough": 120000},
+        examples={"quick": 14000, "thorough": 120000},
         shards={"quick": 16, "thorough": 16},
         doc="planted / independent hosts <= 9 nodes, patterns <= 4 nodes, attribute selections, pre_filter; result set == reference",
     ),
@@ -362,7 +362,7 @@ SUBS = [
         "random_limits",
         body_random,
         strategy=strat_limits,
-        examples={"quick": 6000, "thorough": 120000},
+        examples={"quick": 14000, "thorough": 120000},
         shards={"quick": 16, "thorough": 16},
         doc="same pairs with max_results / threshold: subset, size bounds, emptied past the threshold, full set within it",
     ),
